@@ -24,8 +24,15 @@ where
     }
 }
 
+// The message is never formatted, but every ARGUMENT EXPRESSION is evaluated, exactly as format_args! would
+// evaluate it: arithmetic inside an error message (e.g. `pc - 2 - PROGRAM_START_ADDR`) can overflow and panic,
+// and must stay visible to the verifier.
 #[macro_export]
 macro_rules! bail {
+    ($fmt:literal $(, $arg:expr)* $(,)?) => {{
+        $( let _ = &$arg; )*
+        return ::core::result::Result::Err($crate::Error)
+    }};
     ($($t:tt)*) => {
         return ::core::result::Result::Err($crate::Error)
     };
@@ -33,6 +40,10 @@ macro_rules! bail {
 
 #[macro_export]
 macro_rules! anyhow {
+    ($fmt:literal $(, $arg:expr)* $(,)?) => {{
+        $( let _ = &$arg; )*
+        $crate::Error
+    }};
     ($($t:tt)*) => {
         $crate::Error
     };
